@@ -643,6 +643,86 @@ fn scan_response(r: &[u8]) -> Option<Resp> {
 
 // ------------------------------------------------------------------ the property's oracle (independent of the model)
 
+/// Reference verdict on the sections behind the question: `Some(rule)` when the body breaks a rule
+/// every request body must obey (so the server owes a FORMERR), `None` when this scanner has no
+/// objection (it knows only the rules below — no RDATA grammar beyond A/AAAA lengths):
+///   * every counted record is there in full (owner name, 10 fixed octets, RDLENGTH octets);
+///   * owner names are label sequences ending in 0 or in a pointer that points strictly backwards;
+///   * an empty RDATA (RDLENGTH 0) occurs only in UPDATE messages (RFC 2136 §2.4/2.5) — except OPT;
+///   * OPT, SIG and TSIG records occur only in the additional section (RFC 6891 §6.1.1, RFC 2931,
+///     RFC 8945 §5.1); at most one OPT; the OPT owner is the root; nothing follows a TSIG;
+///   * an A RDATA is 4 octets, an AAAA RDATA 16.
+fn ref_body_bad(m: &[u8], start: usize) -> Option<&'static str> {
+    if m.len() < 12 {
+        return None;
+    }
+    let opcode = (m[2] >> 3) & 0xF;
+    let counts = [u16::from_be_bytes([m[6], m[7]]), u16::from_be_bytes([m[8], m[9]]), u16::from_be_bytes([m[10], m[11]])];
+    let mut p = start;
+    let mut opts = 0;
+    let mut tsig_seen = false;
+    for (sec, n) in counts.iter().enumerate() {
+        for _ in 0..*n {
+            // owner name
+            let own = p;
+            loop {
+                let Some(&x) = m.get(p) else { return Some("truncated-name") };
+                if x == 0 {
+                    p += 1;
+                    break;
+                } else if x >= 0xC0 {
+                    let Some(&y) = m.get(p + 1) else { return Some("truncated-name") };
+                    let t = (((x & 0x3F) as usize) << 8) | y as usize;
+                    if t >= own {
+                        return Some("pointer-not-backwards");
+                    }
+                    p += 2;
+                    break;
+                } else if x < 64 {
+                    p += 1 + x as usize;
+                } else {
+                    return Some("label-type");
+                }
+            }
+            if p + 10 > m.len() {
+                return Some("truncated-record");
+            }
+            let typ = u16::from_be_bytes([m[p], m[p + 1]]);
+            let rdlen = u16::from_be_bytes([m[p + 8], m[p + 9]]) as usize;
+            if p + 10 + rdlen > m.len() {
+                return Some("rdlength-overrun");
+            }
+            if tsig_seen {
+                return Some("record-after-tsig");
+            }
+            let meta = matches!(typ, 41 | 24 | 250);
+            if rdlen == 0 && opcode != 5 && typ != 41 {
+                return Some("empty-rdata-outside-update");
+            }
+            if meta && sec != 2 {
+                return Some("meta-record-outside-additional");
+            }
+            if typ == 41 {
+                opts += 1;
+                if opts > 1 {
+                    return Some("two-opt");
+                }
+                if m[own] != 0 && m[own] < 0xC0 {
+                    return Some("opt-owner-not-root");
+                }
+            }
+            if typ == 250 && rdlen > 0 {
+                tsig_seen = true;
+            }
+            if rdlen != 0 && ((typ == 1 && rdlen != 4) || (typ == 28 && rdlen != 16)) {
+                return Some("address-rdata-length");
+            }
+            p += 10 + rdlen;
+        }
+    }
+    None
+}
+
 /// reference decoder for the question at offset 12: follows compression pointers (bounded), no
 /// limits enforced — only used to compare what request and response *say*
 fn decode_question(m: &[u8]) -> Option<(Vec<Vec<u8>>, u16, u16)> {
@@ -845,7 +925,7 @@ impl Runner {
                 Some(r) => {
                     let rc = (r.opt.map(|o| (o.0 as u16) << 4).unwrap_or(0)) | r.rc_low as u16;
                     let s = format!(
-                        "reply qr={} rc={} id={} op={} rd={} cd={} aa={} ra={} q={} qb={} opt={} log={}",
+                        "reply qr={} rc={} id={} op={} rd={} cd={} aa={} ra={} q={} qb={} opt={} log={} body={}",
                         b(r.qr),
                         rc,
                         r.id,
@@ -860,7 +940,15 @@ impl Runner {
                         },
                         hex(&r.qsec),
                         b(r.opt.is_some()),
-                        if log.is_empty() { "-".to_string() } else { log.join(",") }
+                        if log.is_empty() { "-".to_string() } else { log.join(",") },
+                        // the real decoder's verdict on the rest of the message (the model decodes
+                        // the request itself and prints its own)
+                        match (parsed.body, parsed.edns_version) {
+                            (None, _) => "na".to_string(),
+                            (Some(false), _) => "bad".to_string(),
+                            (Some(true), None) => "ok:-".to_string(),
+                            (Some(true), Some(v)) => format!("ok:{v}"),
+                        }
                     );
                     (s, Some(r))
                 }
@@ -915,7 +1003,16 @@ impl Runner {
             if !matches!(opcode, 0 | 5) {
                 s.push(NOTIMP);
             }
-            let unparsable = parsed.question.is_none() || parsed.body == Some(false);
+            // "bodies that do not parse get FORMERR": judged by the real decoder AND by the reference
+            // scanner below (rules a body must obey; independent of hickory's decoder)
+            let ref_bad = parsed.question.as_ref().and_then(|(qb, _)| ref_body_bad(bytes, 12 + qb.len()));
+            if let Some(why) = ref_bad {
+                rec.stat(&format!("refbody.{why}"));
+                if parsed.body == Some(true) {
+                    rec.stat("note.reference-says-bad-decoder-says-ok");
+                }
+            }
+            let unparsable = parsed.question.is_none() || parsed.body == Some(false) || ref_bad.is_some();
             if unparsable {
                 s.push(FORMERR);
             }
@@ -1585,7 +1682,7 @@ fn gen_request(r: &mut Rng, zones: &[ZSpec], i: usize) -> Vec<u8> {
             // a big TCP-sized message: valid request + many additional records
             let mut b_ = gen_valid(r, zones, 0);
             b_.bytes.truncate(12 + b_.qlen);
-            let k = *r.pick(&[10u16, 100, 1000]);
+            let k = *r.pick(&[10u16, 50, 200]);
             for _ in 0..k {
                 b_.bytes.extend(rr(&[0xC0, 12], 16, 1, 0, &[4, b'x', b'x', b'x', b'x']));
             }
@@ -1603,8 +1700,141 @@ fn gen_request(r: &mut Rng, zones: &[ZSpec], i: usize) -> Vec<u8> {
             b_.bytes.extend(opt_rr(*r.pick(&[512u16, 1232, 0]), 0, *r.pick(&[0u8, 1, 255, 7]), *r.pick(&[0u16, 0x8000]), &[]));
             b_.bytes
         }
+        39 => {
+            // a random member of the body family over a name related to the configured zones
+            let mut b_ = gen_valid(r, zones, op);
+            b_.bytes.truncate(12 + b_.qlen);
+            let qname = b_.bytes[12..12 + b_.qlen - 4].to_vec();
+            let shapes = body_shapes(&qname);
+            let (_, recs) = r.pick(&shapes).clone();
+            let sec = r.below(3) as usize;
+            let mut counts = [0u16; 3];
+            counts[sec] = recs.len() as u16;
+            let mut body = recs.concat();
+            if sec != 2 && r.chance(1, 3) {
+                counts[2] += 1;
+                body.extend(opt_rr(1232, 0, *r.pick(&[0u8, 0, 1]), 0, &[]));
+            }
+            set_u16(&mut b_.bytes, 6, counts[0]);
+            set_u16(&mut b_.bytes, 8, counts[1]);
+            set_u16(&mut b_.bytes, 10, counts[2]);
+            b_.bytes.extend(body);
+            b_.bytes
+        }
         _ => gen_valid(r, zones, op).bytes,
     }
+}
+
+/// a well-formed TSIG record (owner `key.`, algorithm `hmac-sha256.`, 4-octet MAC)
+fn tsig_rr() -> Vec<u8> {
+    let mut d = wire_name(&[b"hmac-sha256".to_vec()]);
+    d.extend([0, 0, 0x65, 0, 0, 0]); // time signed (48 bit)
+    d.extend([1, 44]); // fudge
+    d.extend([0, 4, 1, 2, 3, 4]); // MAC
+    d.extend([0x12, 0x34]); // original id
+    d.extend([0, 0]); // error
+    d.extend([0, 0]); // other len
+    rr(&wire_name(&[b"key".to_vec()]), 250, 255, 0, &d)
+}
+
+/// record shapes of the directed body family: (label, records to put into the chosen section)
+fn body_shapes(qname: &[u8]) -> Vec<(&'static str, Vec<Vec<u8>>)> {
+    let a = |rd: &[u8]| rr(qname, 1, 1, 60, rd);
+    let mut v: Vec<(&'static str, Vec<Vec<u8>>)> = vec![
+        ("valid-a", vec![a(&[192, 0, 2, 1])]),
+        ("valid-txt", vec![rr(qname, 16, 1, 60, &[2, b'h', b'i'])]),
+        ("valid-ns-compressed", vec![rr(&[0xC0, 12], 2, 1, 60, &[0xC0, 12])]),
+        // RDLENGTH 0: only legal in UPDATE messages (RFC 2136), OPT excepted
+        ("empty-a", vec![rr(qname, 1, 1, 0, &[])]),
+        ("empty-ns", vec![rr(qname, 2, 1, 0, &[])]),
+        ("empty-txt", vec![rr(qname, 16, 1, 0, &[])]),
+        ("empty-unknown", vec![rr(qname, 65280, 1, 0, &[])]),
+        ("empty-any-class-any", vec![rr(qname, 255, 255, 0, &[])]),
+        ("empty-a-class-none", vec![rr(qname, 1, 254, 0, &[])]),
+        ("empty-soa", vec![rr(qname, 6, 1, 0, &[])]),
+        ("empty-after-valid", vec![a(&[192, 0, 2, 1]), rr(qname, 1, 1, 0, &[])]),
+        ("empty-opt", vec![opt_rr(1232, 0, 0, 0, &[])]),
+        ("empty-sig", vec![rr(qname, 24, 255, 0, &[])]),
+        ("empty-tsig", vec![rr(qname, 250, 255, 0, &[])]),
+        // RDLENGTH that does not fit the type / the message
+        ("a-rdlen-5", vec![a(&[192, 0, 2, 1, 9])]),
+        ("a-rdlen-3", vec![a(&[192, 0, 2])]),
+        ("aaaa-rdlen-15", vec![rr(qname, 28, 1, 60, &[0; 15])]),
+        ("mx-rdlen-1", vec![rr(qname, 15, 1, 60, &[0])]),
+        ("soa-rdlen-4", vec![rr(qname, 6, 1, 60, &[0, 0, 0, 0])]),
+        ("txt-inner-length-overruns", vec![rr(qname, 16, 1, 60, &[9, b'x'])]),
+        ("rdlen-overruns-message", {
+            let mut x = a(&[192, 0, 2, 1]);
+            let n = x.len();
+            x[n - 6..n - 4].copy_from_slice(&400u16.to_be_bytes());
+            vec![x]
+        }),
+        // OPT / TSIG placement and counts
+        ("opt-with-option", vec![opt_rr(4096, 0, 0, 0x8000, &[0, 10, 0, 8, 1, 2, 3, 4, 5, 6, 7, 8])]),
+        ("two-opt", vec![opt_rr(1232, 0, 0, 0, &[]), opt_rr(512, 0, 0, 0, &[])]),
+        ("opt-owner-not-root", vec![rr(&[1, b'x', 0], 41, 1232, 0, &[])]),
+        ("opt-version-1", vec![opt_rr(1232, 0, 1, 0, &[])]),
+        ("tsig-last", vec![a(&[192, 0, 2, 1]), tsig_rr()]),
+        ("tsig-not-last", vec![tsig_rr(), a(&[192, 0, 2, 1])]),
+        ("tsig-then-opt", vec![tsig_rr(), opt_rr(1232, 0, 0, 0, &[])]),
+        ("two-tsig", vec![tsig_rr(), tsig_rr()]),
+        ("tsig-garbage-rdata", vec![rr(qname, 250, 255, 0, &[1, 2, 3])]),
+        ("sig-garbage-rdata", vec![rr(qname, 24, 255, 0, &[1, 2, 3])]),
+        // class / ttl extremes
+        ("class-0-ttl-max", vec![rr(qname, 1, 0, 0xFFFF_FFFF, &[192, 0, 2, 1])]),
+        ("class-65535-ttl-negative", vec![rr(qname, 1, 65535, 0x8000_0000, &[192, 0, 2, 1])]),
+        ("type-0", vec![rr(qname, 0, 1, 60, &[1])]),
+        ("type-any-with-rdata", vec![rr(qname, 255, 1, 60, &[1])]),
+        ("type-axfr-with-rdata", vec![rr(qname, 252, 1, 60, &[1])]),
+        // owner names: pointers forward / to itself / into the header, bad label types
+        ("owner-pointer-forward", vec![rr(&[0xC0, 0xFF], 1, 1, 60, &[192, 0, 2, 1])]),
+        ("owner-pointer-into-header", vec![rr(&[0xC0, 4], 1, 1, 60, &[192, 0, 2, 1])]),
+        ("owner-label-type-01", vec![rr(&[0x41, b'x', 0], 1, 1, 60, &[192, 0, 2, 1])]),
+        ("rdata-name-pointer-forward", vec![rr(qname, 2, 1, 60, &[0xC0, 0xFF])]),
+    ];
+    // truncated records: cut inside the owner, the fixed part, the RDATA
+    let full = a(&[192, 0, 2, 1]);
+    for (label, cut) in [("cut-in-owner", 1usize), ("cut-in-fixed", qname.len() + 5), ("cut-in-rdata", full.len() - 2)] {
+        v.push((label, vec![full[..cut.min(full.len() - 1)].to_vec()]));
+    }
+    v
+}
+
+/// section ∈ {answer, authority, additional} × opcode × record shape (× with/without a trailing OPT)
+fn body_family() -> Vec<(String, Vec<u8>)> {
+    let q = [wire_name(&labels_of(&name("www.example.com."))), vec![0, 1, 0, 1]].concat();
+    let qname = &q[..q.len() - 4];
+    let mut out = vec![];
+    for op in [0u8, 5, 4, 2] {
+        for sec in 0..3usize {
+            for (label, recs) in body_shapes(qname) {
+                for with_opt in [false, true] {
+                    if with_opt && (sec == 2 || !matches!(label, "valid-a" | "empty-a" | "empty-unknown" | "a-rdlen-5" | "tsig-last")) {
+                        continue;
+                    }
+                    let mut counts = [0u16; 3];
+                    // a record cut short is still counted once
+                    counts[sec] = recs.len() as u16;
+                    let mut body: Vec<u8> = recs.concat();
+                    if with_opt {
+                        counts[2] += 1;
+                        body.extend(opt_rr(1232, 0, 0, 0, &[]));
+                    }
+                    // for UPDATE the question is the zone (SOA)
+                    let mut qq = q.clone();
+                    if op == 5 || op == 4 {
+                        let n = qq.len();
+                        qq[n - 3] = 6;
+                    }
+                    let mut m = header(0xB0D1, (op << 3) | 1, 0, 1, counts[0], counts[1], counts[2]);
+                    m.extend(&qq);
+                    m.extend(body);
+                    out.push((format!("op{op}.sec{sec}.{label}{}", if with_opt { "+opt" } else { "" }), m));
+                }
+            }
+        }
+    }
+    out
 }
 
 fn hand_configs() -> Vec<(Vec<ZSpec>, Vec<IpNet>, Vec<IpNet>)> {
@@ -1679,6 +1909,16 @@ pub fn run(o: &Opts, rec: &mut Recorder) {
                 one(v, r.byte(), &mut run, rec);
                 one(r.byte() & 0x7F, v, &mut run, rec);
             }
+        }
+        run.exec("end", rec);
+    }
+    // directed body family: section × opcode × record shape, against one in-memory zone
+    {
+        let zones = vec![ZSpec { origin: name("example.com."), handlers: vec![HSpec::Mem { axfr: false }] }];
+        run.exec(&format!("begin {} - -", zones_tok(&zones)), rec);
+        for (label, m) in body_family() {
+            rec.stat(&format!("bodyfam.{}", label.split('.').nth(2).unwrap_or("")));
+            run.exec(&format!("req u 4:134744072 {} ? ? ?", hex(&m)), rec);
         }
         run.exec("end", rec);
     }
